@@ -46,17 +46,10 @@ class Empty(Exception):
     pass
 
 
-class Unhashable:
-    """A value that cannot be put in a set / used as a dict key: hashing it raises the tagged failure."""
-
-    def __init__(self, tag):
-        self.tag = tag
-
-    def __eq__(self, o):
-        return self is o
-
-    def __hash__(self):
-        raise Boom(self.tag)
+def unhashable(tag):
+    """A value that cannot be put in a set / used as a dict key (TypeError at gather time).  A list, not an object with a
+    raising __hash__: CrossHair 0.0.110 swallows exceptions raised by __hash__ inside set() (deviation from CPython)."""
+    return ["unhashable", tag]
 
 
 class FStore(uberjob.ValueStore):
@@ -158,7 +151,7 @@ def _site(R):
     R.bp, R.bk, R.bn, R.be, R.c = plan.call(R.fbp), plan.call(R.fbk), plan.call(R.fbn), plan.call(R.fbe), plan.call(R.fc)
     R.s_gpos, R.gpos = _snap(), plan.call(consume, {R.bp})
     R.s_gkw, R.gkw = _snap(), plan.call(consume, items={R.bk})
-    R.s_gnest, R.gnest = _snap(), plan.call(consume, 1, table=[{R.bn: "v"}])
+    R.s_gnest, R.gnest = _snap(), plan.call(consume, 1, table=[0, ({R.bn}, "v")])
     R.s_gexp, R.gexp = _snap(), plan.gather({R.be})
     R.s_unp, R.unp = _snap(), plan.unpack(R.c, 2)
     R.out = [R.a, R.gpos, R.gkw, R.gnest, R.gexp, R.unp[0], R.unp[1]]
@@ -217,10 +210,10 @@ def make_world(fault, p1, t0, t1, stores=None):
         return ("a", x)
 
     R.fa = user_a
-    R.fbp = _mk_fn("bp", "bad" if fault == "gpos" else None, 1, Unhashable("bp"))
-    R.fbk = _mk_fn("bk", "bad" if fault == "gkw" else None, 2, Unhashable("bk"))
-    R.fbn = _mk_fn("bn", "bad" if fault == "gnest" else None, 3, Unhashable("bn"))
-    R.fbe = _mk_fn("be", "bad" if fault == "gexp" else None, 4, Unhashable("be"))
+    R.fbp = _mk_fn("bp", "bad" if fault == "gpos" else None, 1, unhashable("bp"))
+    R.fbk = _mk_fn("bk", "bad" if fault == "gkw" else None, 2, unhashable("bk"))
+    R.fbn = _mk_fn("bn", "bad" if fault == "gnest" else None, 3, unhashable("bn"))
+    R.fbe = _mk_fn("be", "bad" if fault == "gexp" else None, 4, unhashable("be"))
     R.fc = _mk_fn("c", "bad" if fault == "unpack" else None, (7, 8), (7, 8, 9))
     return R
 
@@ -233,13 +226,14 @@ def expected_failure(fault, R, stale1):
     if fault == "call":  # the plan.call line
         return (R.s_a, is_node(R.a), "a") if stale1 else None
     if fault == "gpos":  # implicit gather of a structured positional argument: the plan.call line
-        return R.s_gpos, has_fn(_builtins.gather_set), "bp"
+        return R.s_gpos, has_fn(_builtins.gather_set), TypeError
     if fault == "gkw":  # ... of a structured keyword argument
-        return R.s_gkw, has_fn(_builtins.gather_set), "bk"
-    if fault == "gnest":  # ... nested inside a keyword argument (dict key inside a list)
-        return R.s_gnest, has_fn(_builtins.gather_dict), "bn"
+        return R.s_gkw, has_fn(_builtins.gather_set), TypeError
+    if fault == "gnest":  # ... nested inside a keyword argument (set inside a tuple inside a list); a dict key is not used:
+        # CrossHair 0.0.110 does not raise TypeError for an unhashable dict key (deviation from CPython)
+        return R.s_gnest, has_fn(_builtins.gather_set), TypeError
     if fault == "gexp":  # the plan.gather line (plan.gather returns the gather call itself)
-        return R.s_gexp, (lambda c: c is R.gexp and c.fn is _builtins.gather_set), "be"
+        return R.s_gexp, (lambda c: c is R.gexp and c.fn is _builtins.gather_set), TypeError
     if fault == "unpack":  # the plan.unpack line
         return R.s_unp, has_fn(_builtins.unpack), ValueError
     if fault == "addw":  # failed store write: the registry.add line
